@@ -215,11 +215,12 @@ async def run_case(env: Env, case, res: Result):
     script.on_issue = None
     res.count("rpc_issued", len(script.calls))
     if len(results) != n or not stable:
-        res.count("cases_not_quiescent")
+        # a save that never returns is a liveness problem the statement does not speak about, and a schedule that
+        # cannot be completed decides nothing: crash the shard => INCONCLUSIVE (never 'held', never 'violated')
         for t in tasks.values():
             t.cancel()
-        res.violation(None, f"save_method did not finish under schedule {order}: results={results}", _jcase(case))
-        return
+        raise RuntimeError(f"C31 scheduler could not bring the saves to completion under order {order}, outcomes "
+                           f"{outcomes}, bases {bases}: results={results}, pending rpc={len(script.pending())}")
     await rig.settle(2)
 
     # ------------------------------------------------------------------ oracle
